@@ -45,13 +45,17 @@ package common
 
 //@ func PanicSanity
 //@   noreturn
+//@   pure
 //@   trusted
 //@ func PanicCrisis
 //@   noreturn
+//@   pure
 //@   trusted
 //@ func PanicConsensus
 //@   noreturn
+//@   pure
 //@   trusted
 //@ func PanicQ
 //@   noreturn
+//@   pure
 //@   trusted
